@@ -156,6 +156,10 @@ def run(ck):
     ck.obligation("correspondence: every wire returned by push_xor/and/not/or/eq/mux/adder and the circuit "
                   "returned by build equal the model's, for every generated request sequence", mism == 0,
                   f"{mism} differing jobs")
+    # program level (C04_program_dedup_irrelevant is about Compile/Lower.v): tie the lowering model to compile.rs
+    import lowertie, scenarios, progcheck
+    psrc = scenarios.all_sources() + progcheck.generated_sources(ck, 60 if quick else 2000)
+    lowertie.tie_pass(ck, psrc, max_programs=120 if quick else 2500)
     ck.coverage.update({
         "evaluations": len(jobs),
         "distinct_nontrivial": len(set(re.sub(r"^\(builder \S+ ", "", j) for j in jobs)),
